@@ -7,4 +7,4 @@ Extraction Language OCaml.
 Extraction "../ocaml/c20/model.ml" make_verified valid_nameb use_statement
   verify_result eq_ci use_keyspace_result is_ok is_err
   accept_trace acc_init first_reject
-  prop_violb Z.of_N N.to_nat.
+  prop_violb texts_verdict Z.of_N N.to_nat.
